@@ -710,6 +710,7 @@ def check_C16(tier, seed):
         corpora.stuck_run_cases(S, rng, (2,), r)
     corpora.zero_reading_cases(S, rng)
     S.case("JitterRng::new(): a new generator owes no half", [{"op": "jit_std_new"}, {"op": "jit_std_new"}])
+    S.case("a by-value duplicate (if JitterRng over a fn timer is Copy) owns no half", [{"op": "by_value_copy"}])
     rc = trace_check("C16", tier, seed, S, "Trace_Jitter.tla", "Trace_Jitter.cfg", weight=jit_weight,
                      rule="timer scripts constructed so that the first collected value is 0, all ones or has a zero / all-ones half are run through the same discipline. TLC explores the hand-out machine JitterApi (collections as tokens, <=3 instances incl. clone of clone, all interleavings of next_u32/next_u64/fill_bytes(n)/clone) and checks AtMostOnce, PendingIsHighHalfOfOwnValue and FreshOrPendingHalf; a negative control (Clone copying the flag) must fail; every edge of the projected graph (alive, pending flags) is executed on real JitterRng instances with their own scripted timer cursors, and Trace_Jitter, which executes the same plans on concrete pools, validates values, flags and readings consumed. distinct = distinct recorded events",
                      assumptions=JIT_ASSUME + ["fill_bytes(n in 1..4) with a half pending is left open between C05's and C16's wording: both plans are admitted"],
@@ -1193,9 +1194,46 @@ def check_C11(tier, seed):
     kinds2 = ("IsaacRng", "Isaac64Rng")
     ops = [{"op": "reset"}]
     for i, kind in enumerate(kinds2):
-        ops += [{"op": "from_seed", "g": i + 1, "kind": kind, "seed": [rng.getrandbits(8) for _ in range(32)]}, {"op": "next_u32", "g": i + 1, "n": 5}, {"op": "ser", "g": i + 1}]
+        ops += [{"op": "from_seed", "g": i + 1, "kind": kind, "seed": [rng.getrandbits(8) for _ in range(32)]}, {"op": "next_u32", "g": i + 1, "n": 5}, {"op": "ser", "g": i + 1, "want_json": True}]
     vlib.write_ndjson(sp, ops)
     vlib.drive(binp, sp, tp)
+    for e in vlib.read_ndjson(tp):
+        if e.get("e") == "ser" and "json" in e:
+            # words that no reachable run shows within minutes: a buffered result (or a word of the memory) that is 0.
+            # The JSON snapshot the code wrote gets zeros planted in its 256-element lists (whatever they are called and
+            # wherever they are), is loaded, and is then snapshotted and restored like every other generator.
+            kind = kinds2[e["g"] - 1]
+            try:
+                doc = json.loads(e["json"])
+            except ValueError:
+                doc = None
+            lists = []
+
+            def walk(x, path):
+                if isinstance(x, list) and len(x) == 256 and all(isinstance(v, int) for v in x):
+                    lists.append(path)
+                elif isinstance(x, dict):
+                    for k, v in x.items():
+                        walk(v, path + [k])
+                elif isinstance(x, list):
+                    for k, v in enumerate(x):
+                        walk(v, path + [k])
+            walk(doc, [])
+            for li, path in enumerate(lists):
+                for where in ([6], [100], [254], [255], [0], [7, 200], [253, 254, 255]):
+                    d2 = json.loads(e["json"])
+                    tgt = d2
+                    for k in path:
+                        tgt = tgt[k]
+                    for w in where:
+                        tgt[w] = 0
+                    cops = [{"op": "de_image", "kind": kind, "json": json.dumps(d2), "to": 1}, {"op": "clone", "g": 1, "to": 4}, {"op": "ser", "g": 1},
+                            {"op": "de", "g": 1, "to": 2, "fmt": "bincode"}, {"op": "de", "g": 1, "to": 3, "fmt": "json"}, {"op": "de", "g": 1, "to": 9, "fmt": "embedded"},
+                            {"op": "eq", "a": 1, "b": 2}, {"op": "eq", "a": 1, "b": 3}]
+                    cops += corpora.lockstep([("next_u32", 0)] * 3 + [("next_u64", 0)] * (130 if kind == "IsaacRng" else 260) + [("next_u32", 0), ("fill_bytes", 1030 if kind == "IsaacRng" else 2060), ("next_u32", 0)], [1, 4, 2, 3, 9])
+                    cops += [{"op": "ser", "g": 2}, {"op": "de", "g": 2, "to": 5, "fmt": "json"}]
+                    cops += corpora.lockstep([("next_u32", 0), ("next_u64", 0)], [2, 5])
+                    S.case("%s snapshot of a state with 0 planted at %s of 256-element list #%d" % (kind, where, li), cops, weight=900)
     for e in vlib.read_ndjson(tp):
         if e.get("e") == "ser" and "image" in e:
             kind = kinds2[e["g"] - 1]
@@ -2127,6 +2165,28 @@ def check_C07(tier, seed):
     adv = [(-kk * 0x9E3779B97F4A7C15) & ((1 << 64) - 1) for kk in range(1, 9)]
     Sz = vlib.Sched()
     Sz.cases = [c for c in corpora.c08_corpus(seed, "quick", adv).cases if any(t in c["label"] for t in ("seed_from_u64 adversarial", "zero and almost-zero seeds"))]
+    # every constructor call is judged on its own: a case is cut in front of each constructor (pieces that refer to a
+    # generator made in an earlier piece stay with it), because only the FIRST rejected event of a case is reported
+    cut = []
+    for c in Sz.cases:
+        segs = []
+        for o in c["ops"]:
+            if o["op"] in ("from_seed", "seed_from_u64") or not segs:
+                segs.append([])
+            segs[-1].append(o)
+        merged = []
+        for sg in segs:
+            made = {o["g"] for o in sg if o["op"] in ("from_seed", "seed_from_u64")}
+            used = {o[k] for o in sg for k in ("g", "a", "b") if k in o}
+            if merged and not used <= made:
+                merged[-1] += sg
+            else:
+                merged.append(list(sg))
+        for i, sg in enumerate(merged):
+            cut.append({"label": "%s #%d" % (c["label"], i), "ops": sg})
+    Sz = vlib.Sched()
+    for c in cut:
+        Sz.case(c["label"], c["ops"])
     import random as _rnd
     rz = _rnd.Random(seed + 707)
     for kind in corpora.LINEAR:       # one source per case, so that every constructor call is judged on its own
@@ -2139,6 +2199,8 @@ def check_C07(tier, seed):
         Sz.case("%s try_from_rng: a zero block, then the source fails" % kind,
                 [{"op": "src", "s": 1, "bytes": [0] * L + [rz.getrandbits(8) | 1 for _ in range(2 * L)], "fallible": True, "fail_at": 2},
                  {"op": "try_from_rng", "g": 1, "kind": kind, "s": 1}])
+    for kind in corpora.LINEAR:       # Default::default(), where a type has (or gains) it, is one more constructor
+        Sz.case("%s Default::default(), if there is one" % kind, [{"op": "default_ctor", "g": 1, "kind": kind}])
     for kind in corpora.XO_JUMP:      # a jump is 2^(n/2) steps: it cannot end in the all-zero state either
         for r in range(2):
             sd = [rz.getrandbits(8) | 1 for _ in range(corpora.SEEDLEN[kind])]
@@ -2151,6 +2213,8 @@ def check_C07(tier, seed):
         bad = evs[r["at_event"] - 1] if 0 < r["at_event"] <= len(evs) else None
         img = ((bad or {}).get("obs") or {}).get("s")
         if img and all(l == 0 for w in img for l in w):
+            zero_rej.append(r)
+        elif (bad or {}).get("e") == "default_ctor" and bad.get("image") and not any(bad["image"]):
             zero_rej.append(r)
     nviol += report_rejections("C07", zero_rej, Sz)
     # a step that is not injective: two different recorded states with the same recorded successor.  The pair is
